@@ -35,6 +35,46 @@ def exhaustive_pairs(seed, engine):
     return cases
 
 
+def stress_case(engine, clients, ops):
+    """free-running concurrent writers (no gates): the engine's own isolation is exercised; judged by the
+    chain oracle only (the schedule is the Go scheduler's, so the model is not compared)"""
+    from .. import hist
+    keys = [b"/r/s1", b"/r/s2"]
+    lines = [hist.cfg_line(engine), "stress %d %d %s" % (clients, ops, ",".join(hx(k) for k in keys))]
+    return core.Case("backend", lines, {"engine": engine, "stress": True}, compare=lambda op: op != "stress")
+
+
+def stress_oracle(case):
+    out = case.impl[1].split() if len(case.impl) > 1 else []
+    if len(out) < 3 or out[0] != "stress":
+        return None
+    per_key = {}
+    if out[1] != "-":
+        for e in out[1].split(","):
+            verb, key, rev, exp = e.split(":")
+            per_key.setdefault(key, []).append((int(rev), verb, int(exp)))
+    finals = dict(x.split("=") for x in out[2].split("=", 1)[1].split(","))
+    for key, ws in per_key.items():
+        ws.sort()
+        prev = None
+        for rev, verb, exp in ws:
+            if verb == "create":
+                if prev is not None and prev[1]:
+                    return ("key %s: create at %d succeeded although the key was live at %d" % (key, rev, prev[0]), "stress-create-over-live")
+            else:
+                if prev is None or not prev[1] or prev[0] != exp:
+                    return ("key %s: %s at %d conditioned on %d succeeded but its predecessor in the chain is %s: "
+                            "two writers conditioned on the same revision both succeeded / a lost update" % (key, verb, rev, exp, prev), "stress-chain-broken")
+            prev = (rev, verb != "delete")
+        fin = finals.get(key)
+        if fin is not None and fin != "err":
+            if prev[1] and fin != str(prev[0]):
+                return ("key %s: chain ends live at %d but the store shows %s" % (key, prev[0], fin), "stress-final-mismatch")
+            if not prev[1] and fin != "-":
+                return ("key %s: chain ends with a delete at %d but the store shows %s" % (key, prev[0], fin), "stress-final-mismatch")
+    return None
+
+
 def check(rep, tier, seed):
     n, n_clients = (30, 4) if tier == "quick" else (1500, 5)
     cases = []
@@ -46,10 +86,12 @@ def check(rep, tier, seed):
     if tier != "quick":
         ex += exhaustive_pairs(seed, "badger") + exhaustive_pairs(seed, "tikv")
     cases += ex
+    stress = [stress_case(e, 8, 150 if tier == "quick" else 1500) for e in ENGINES for _ in range(1 if tier == "quick" else 4)]
+    cases += stress
     core.run_cases(cases)
     for c in cases:
         rep.count_case(c)
-        hit = sched.oracle_c01(c)
+        hit = stress_oracle(c) if c.meta.get("stress") else sched.oracle_c01(c)
         if hit:
             if core.handle_oracle_hit(rep, "C01", hit[1], c, hit[0], hit[1]):
                 return
